@@ -2,6 +2,10 @@
 """Regenerates /verif/MANIFEST.json from the table below (run after adding a check)."""
 import json, subprocess
 CHECKS = {
+ "C20": dict(level="model_checking",
+   text="History exploration of the real broker: every sequence of 2-3 (thorough 4) packets over 23 packet instances covering all 14 types, ids 1/7/65535, 1-4 (thorough 8) filters, good and bad credentials, sent cold or after a valid CONNECT, step-by-step or pipelined, plus one or two scheduling deviations inside the pipelined sequences; replies are compared with a reference transducer per request, backend hooks and a '#' witness show what was acted upon.",
+   note="Trusted: rewriter + scheduler shims, codec pipe, recording backend, the 40-line reference transducer in mc/h/c20. Filters of the connection under test are disjoint from its publish topics.",
+   technique="bounded-exhaustive input-sequence exploration of the implementation under a controlled scheduler, reference transducer oracle", design="5 (C20)"),
  "C07": dict(level="model_checking",
    text="History exploration of the real broker (engine, client goroutines, MemoryBackend, tomb) under a controlled scheduler: every sequence up to depth 7-8 (thorough 8-9) of publisher and fault events {connect, PUBLISH new/dup, PUBREL known/unknown, drop, broker write failing before/after, broker read failing, backend ack released late / from another thread} for 1-2 packet ids, the broker running to exact quiescence between events; extra pass with one or two scheduling deviations inside every step. Oracles at the instant of each broker write and at each quiescence.",
    note="Trusted: rewriter + scheduler shims, codec pipe (real Encode/Decode, FIN semantics), recording backend wrapper. Publisher model is protocol-conformant. Timers >= 100 ms (token/kill timeouts) never fire by themselves.",
